@@ -22,7 +22,7 @@ def showDist : Dist → String
 def cmdGetDist (a : Args) : String :=
   match charsOf a "s" with
   | none => "bad-args s"
-  | some s => showDist (getDistance s)
+  | some s => showDist (getDistance roundF64 s)
 
 /-- `resplit s=<cps>` -> the pieces of re.split, `t<cps>` / `n<cps>` joined by `|` -/
 def cmdReSplit (a : Args) : String :=
@@ -51,13 +51,13 @@ def cmdEllipse (a : Args) : String :=
 /-- `circle cx=<num> cy=<num> r=<cps of str(radius)>` -/
 def cmdCircle (a : Args) : String :=
   match ratArg a "cx", ratArg a "cy", charsOf a "r" with
-  | some cx, some cy, some r => showKGrid (circleKernel cx cy (getDistance r))
+  | some cx, some cy, some r => showKGrid (circleKernel roundF64 cx cy (getDistance roundF64 r))
   | _, _, _ => "bad-args"
 
 /-- `annulus cx=<num> cy=<num> ro=<cps> ri=<cps>` -/
 def cmdAnnulus (a : Args) : String :=
   match ratArg a "cx", ratArg a "cy", charsOf a "ro", charsOf a "ri" with
-  | some cx, some cy, some ro, some ri => showKGrid (annulusKernel cx cy (getDistance ro) (getDistance ri))
+  | some cx, some cy, some ro, some ri => showKGrid (annulusKernel roundF64 cx cy (getDistance roundF64 ro) (getDistance roundF64 ri))
   | _, _, _, _ => "bad-args"
 
 /-- `cellsize unit=<cps>|none rx=<num> ry=<num>` -> `x,y` | `err:KeyError` -/
@@ -65,7 +65,7 @@ def cmdCellsize (a : Args) : String :=
   let unit := if a.get? "unit" == some "none" then some none else (charsOf a "unit").map some
   match unit, ratArg a "rx", ratArg a "ry" with
   | some u, some rx, some ry =>
-    match calcCellsize u rx ry with
+    match calcCellsize roundF64 u rx ry with
     | none => "err:KeyError"
     | some (x, y) => s!"{showRat x},{showRat y}"
   | _, _, _ => "bad-args"
@@ -75,13 +75,19 @@ def cmdCellsize (a : Args) : String :=
 def cmdHalf (a : Args) : String :=
   match ratArg a "cx", ratArg a "cy", charsOf a "r" with
   | some cx, some cy, some r =>
-    match getDistance r with
-    | .val (.fin q) => if cx = 0 ∨ cy = 0 then "-" else s!"{showRat (q / cx)},{showRat (q / cy)}"
+    match getDistance roundF64 r with
+    | .val (.fin q) => if cx = 0 ∨ cy = 0 then "-" else s!"{showRat (roundF64 (q / cx))},{showRat (roundF64 (q / cy))}"
     | _ => "-"
   | _, _, _ => "bad-args"
 
+/-- `round q=<num>` -> the binary64 value nearest to `q` (validates `roundF64` against Python) -/
+def cmdRound (a : Args) : String :=
+  match ratArg a "q" with
+  | some q => showRat (roundF64 q)
+  | none => "bad-args"
+
 def handlersMetrics : List (String × (Args → String)) :=
   [("getdist", cmdGetDist), ("resplit", cmdReSplit), ("ellipse", cmdEllipse), ("circle", cmdCircle),
-   ("annulus", cmdAnnulus), ("cellsize", cmdCellsize), ("half", cmdHalf)]
+   ("annulus", cmdAnnulus), ("cellsize", cmdCellsize), ("half", cmdHalf), ("round", cmdRound)]
 
 end XrsVerif.Driver
